@@ -564,7 +564,7 @@ func (e *Env) runRPC() error {
 				e.Res.Notes = append(e.Res.Notes, fmt.Sprintf("step %d: no connection to push on", i))
 				continue
 			}
-			if step.Push.Kind == "forged-plain-result" || step.Push.Kind == "corrupted-result" {
+			if step.Push.Kind == "forged-plain-result" || step.Push.Kind == "corrupted-result" || strings.HasPrefix(step.Push.Kind, "mangled:") {
 				// an attacker on the path: a result for the pending request Arg that the key holder never sealed
 				st.mu.Lock()
 				var p *pendingReq
@@ -578,7 +578,15 @@ func (e *Env) runRPC() error {
 				}
 				forged := refsrv.RpcResult(p.req.MsgID, resultBody(p.kind, int(step.Push.Arg)+1)) // the value of another tag
 				e.Srv.LogNote("push", c, 0, step.Push.Kind)
-				if step.Push.Kind == "forged-plain-result" {
+				if op, ok := strings.CutPrefix(step.Push.Kind, "mangled:"); ok {
+					// Body: two 16-bit parameters, then the noise seed
+					b := append(append([]byte{}, step.Push.Body...), 0, 0, 0, 0)
+					if f := c.MangledFrame(forged, op, int(b[0])<<8|int(b[1]), int(b[2])<<8|int(b[3]), b[4:]); f != nil {
+						c.WriteFrame(f)
+					} else {
+						e.Res.Notes = append(e.Res.Notes, fmt.Sprintf("step %d: no connection to push on (mangled frame)", i))
+					}
+				} else if step.Push.Kind == "forged-plain-result" {
 					w := &refsrv.W{}
 					w.I64(0).I64(time.Now().Unix()<<32 | 1).U32(uint32(len(forged))).Raw(forged)
 					c.WriteFrame(w.B)
